@@ -393,46 +393,24 @@ func C18(c *Ctx) {
 	c.Rule(r2, "prewriteMutation: the lock-mismatch return and the write-conflict return (commitTs >= StartVersion) lie on every path to the data and lock writes; rollbackKey: the existing-write test precedes the deletes and the rollback record; commitKey: the MinCommitTs test and the existing-write test precede the commit record; the commit record is written before the lock is removed")
 	wr := deepMatcher(Named("NoKV.(*DB).SetVersionedEntry", "NoKV.(*DB).DeleteVersionedEntry"), Module+"/percolator", 2)
 	if fn := c.Fn("percolator", "prewriteMutation"); fn != nil {
-		beforeOK(c, r2, fn, "GetLock", Named("percolator.(*Reader).GetLock"), "versioned write", wr, 2)
-		beforeOK(c, r2, fn, "MostRecentWrite", Named("percolator.(*Reader).MostRecentWrite"), "versioned write", wr, 2)
-		writes := Calls(fn, false, wr)
-		// lock mismatch test: lock.Ts != req.StartVersion → return
-		guards := 0
-		for _, b := range fn.Blocks {
-			ifi := ifOf(b)
-			if ifi == nil {
-				continue
-			}
-			bo, ok := ifi.Cond.(*ssa.BinOp)
-			if !ok {
-				continue
-			}
-			isLockTs := bo.Op == token.NEQ && isFieldLoad(bo.X, "percolator.Lock", "Ts") && isFieldLoad(bo.Y, "pb.PrewriteRequest", "StartVersion")
-			isConflict := bo.Op == token.GEQ && isFieldLoad(bo.Y, "pb.PrewriteRequest", "StartVersion")
-			if !isLockTs && !isConflict {
-				continue
-			}
-			guards++
-			name := "lock.Ts!=StartVersion"
-			if isConflict {
-				name = "commitTs>=StartVersion"
-			}
-			bad := false
-			for _, w := range writes {
-				if blockReaches(b.Succs[0], w.Block()) {
-					bad = true
-				}
-			}
-			c.Decide(!bad, r2, key(fn, "reject:"+name), ifi.Pos(), len(writes)+1, "the rejecting edge never reaches a write", "a write is reachable on the rejecting edge of "+name)
-		}
-		c.Decide(guards == 2, r2, key(fn, "has:two-conflict-guards"), fn.Pos(), guards+1, "lock-owner and write-conflict guards present", fmt.Sprintf("expected the lock-owner test (lock.Ts != StartVersion) and the write-conflict test (commitTs >= StartVersion), found %d", guards))
+		prewriteGuards(c, r2, fn, wr)
 		// the lock is written last, at lockColumnTs, after the data write succeeded
 		lockWrites := 0
-		for _, w := range Calls(fn, false, Named("NoKV.(*DB).SetVersionedEntry")) {
-			if cf, ok := ConstInt(w.Common().Args[1]); ok && cf == cfValue(c, "CFLock") {
-				lockWrites++
-				v, ok := w.Common().Args[3].(*ssa.Const)
-				c.Decide(ok && v.Value != nil && v.Value.ExactString() == "18446744073709551615", r2, key(fn, "lock-write#version=lockColumnTs"), w.Pos(), 1, "lock stored at the fixed lock-column version", "the lock is not written at lockColumnTs")
+		holders := []*ssa.Function{fn}
+		AllInstrs(fn, false, func(in ssa.Instruction) {
+			if ci, ok := in.(ssa.CallInstruction); ok {
+				if h := StaticFn(ci.Common()); h != nil && h.Blocks != nil && h != fn && FuncPkgPath(h) == FuncPkgPath(fn) {
+					holders = append(holders, h)
+				}
+			}
+		})
+		for _, g := range holders {
+			for _, w := range Calls(g, false, Named("NoKV.(*DB).SetVersionedEntry")) {
+				if cf, ok := ConstInt(w.Common().Args[1]); ok && cf == cfValue(c, "CFLock") {
+					lockWrites++
+					v, ok := w.Common().Args[3].(*ssa.Const)
+					c.Decide(ok && v.Value != nil && v.Value.ExactString() == "18446744073709551615", r2, key(fn, "lock-write#version=lockColumnTs"), w.Pos(), 1, "lock stored at the fixed lock-column version", "the lock is not written at lockColumnTs")
+				}
 			}
 		}
 		c.Decide(lockWrites == 1, r2, key(fn, "single-lock-write"), fn.Pos(), 1, "one lock write", fmt.Sprintf("%d lock writes in prewriteMutation", lockWrites))
@@ -1378,4 +1356,121 @@ func commitAllOrNothing(c *Ctx, rule string) {
 	}
 	c.Decide(!reach(-1) && reach(1), rule, key(fn, "CommitVersion>=StartVersion"), fn.Pos(), 3, "a commit version below the start version is refused before any write",
 		"Commit accepts CommitVersion < StartVersion: the commit record is written below the start version, GetWriteByStartTs (which stops at ts < startTs) never finds it again, a repeated Commit fails with `lock not found` and a later rollback writes a rollback marker for a committed transaction")
+}
+
+// prewriteGuards: prewriteMutation writes (data, then lock) only after Reader.GetLock and
+// Reader.MostRecentWrite succeeded and neither conflict guard fired: a lock of another
+// transaction (lock.Ts != StartVersion) and a newer commit (commitTs >= StartVersion) reach no
+// write.  The guards are decided by order-sign evaluation, in prewriteMutation itself or in a
+// checking helper whose non-nil answer keeps prewriteMutation from writing.
+func prewriteGuards(c *Ctx, rule string, fn *ssa.Function, wr Matcher) {
+	writes := effectSites(c, fn, func(ci ssa.CallInstruction) bool { return wr(ci.Common()) }, 1)
+	c.Decide(len(writes) >= 1, rule, key(fn, "has:versioned write"), fn.Pos(), len(writes)+1, "write sites found", "expected at least 1 versioned write site in percolator.prewriteMutation, found 0")
+	glM, mrM := Named("percolator.(*Reader).GetLock"), Named("percolator.(*Reader).MostRecentWrite")
+	// the function that holds the reads and the guards
+	holder := fn
+	var holderCall ssa.CallInstruction
+	if len(Calls(fn, false, glM)) == 0 {
+		AllInstrs(fn, false, func(in ssa.Instruction) {
+			if ci, ok := in.(ssa.CallInstruction); ok && holderCall == nil {
+				if h := StaticFn(ci.Common()); h != nil && h.Blocks != nil && FuncPkgPath(h) == FuncPkgPath(fn) && len(Calls(h, false, glM)) > 0 {
+					holder, holderCall = h, ci
+				}
+			}
+		})
+	}
+	role := func(v ssa.Value) string {
+		v = Unwrap(v)
+		if isFieldLoad(v, "percolator.Lock", "Ts") {
+			return "lockTs"
+		}
+		if isFieldLoad(v, "pb.PrewriteRequest", "StartVersion") {
+			return "start"
+		}
+		if call, ok := v.(*ssa.Call); ok && FuncName(StaticFn(call.Common())) == "(*pb.PrewriteRequest).GetStartVersion" {
+			return "start"
+		}
+		if ex, ok := v.(*ssa.Extract); ok {
+			if call, ok := ex.Tuple.(*ssa.Call); ok {
+				switch {
+				case mrM(call.Common()) && ex.Index == 1:
+					return "commitTs"
+				case mrM(call.Common()) && ex.Index == 0:
+					return "write"
+				case glM(call.Common()) && ex.Index == 0:
+					return "lock"
+				}
+			}
+		}
+		if k, ok := v.(*ssa.Const); ok && k.IsNil() {
+			return "nil"
+		}
+		return ""
+	}
+	// outcome(signs): does the holder let a write happen?
+	lets := func(signs map[string]int) (bool, int) {
+		env := &SignEnv{Role: role, Signs: signs, Depth: 1}
+		if holder == fn {
+			for _, w := range writes {
+				if env.Reaches(fn, w.(ssa.Instruction)) {
+					return true, env.Visited
+				}
+			}
+			return false, env.Visited
+		}
+		for _, r := range env.ReachableReturns(holder) {
+			if !ProvablyNonNil(RetVal(r, 0), r, 0) {
+				return true, env.Visited
+			}
+		}
+		return false, env.Visited
+	}
+	mk := func(pairs ...interface{}) map[string]int {
+		m := map[string]int{}
+		for i := 0; i+2 < len(pairs); i += 3 {
+			SetSign(m, pairs[i].(string), pairs[i+1].(string), pairs[i+2].(int))
+		}
+		// a lock and a latest write are present: the guards are about them
+		SetSign(m, "lock", "nil", 1)
+		SetSign(m, "write", "nil", 1)
+		return m
+	}
+	foreignLo, n1 := lets(mk("lockTs", "start", -1))
+	foreignHi, n2 := lets(mk("lockTs", "start", 1))
+	c.Decide(!foreignLo && !foreignHi, rule, key(fn, "reject:lock.Ts!=StartVersion"), fn.Pos(), n1+n2, "the rejecting edge never reaches a write", "a write is reachable on the rejecting edge of lock.Ts!=StartVersion")
+	newerEq, n3 := lets(mk("lockTs", "start", 0, "commitTs", "start", 0))
+	newerGt, n4 := lets(mk("lockTs", "start", 0, "commitTs", "start", 1))
+	older, n5 := lets(mk("lockTs", "start", 0, "commitTs", "start", -1))
+	c.Decide(!newerEq && !newerGt, rule, key(fn, "reject:commitTs>=StartVersion"), fn.Pos(), n3+n4, "the rejecting edge never reaches a write", "a write is reachable on the rejecting edge of commitTs>=StartVersion")
+	c.Decide(older && !(foreignLo || foreignHi) && !(newerEq || newerGt), rule, key(fn, "has:two-conflict-guards"), fn.Pos(), n5+1, "lock-owner and write-conflict guards present", "expected the lock-owner test (lock.Ts != StartVersion) and the write-conflict test (commitTs >= StartVersion) to decide whether prewriteMutation writes")
+	// reads succeed before any write
+	if holder == fn {
+		for i, w := range writes {
+			succOK(c, rule, key(fn, fmt.Sprintf("versioned write<-ok(GetLock)[%d]", i+1)), fn, Calls(fn, false, glM), "GetLock", w.(ssa.Instruction), "versioned write")
+			succOK(c, rule, key(fn, fmt.Sprintf("versioned write<-ok(MostRecentWrite)[%d]", i+1)), fn, Calls(fn, false, mrM), "MostRecentWrite", w.(ssa.Instruction), "versioned write")
+		}
+		return
+	}
+	c.Touch(holder)
+	// in the helper: every nil answer lies behind both successful reads
+	okReads := true
+	for _, r := range Returns(holder) {
+		if ProvablyNonNil(RetVal(r, 0), r, 0) {
+			continue
+		}
+		if !succOKq(holder, Calls(holder, false, glM), r) || !succOKq(holder, Calls(holder, false, mrM), r) {
+			okReads = false
+		}
+	}
+	c.Decide(okReads, rule, key(fn, "versioned write<-ok(GetLock)[1]"), holder.Pos(), 2, "the checking helper answers nil only after both reads succeeded", "the checking helper can answer nil without a successful GetLock / MostRecentWrite")
+	// in prewriteMutation: the writes lie behind the nil edge of the helper's answer
+	for i, w := range writes {
+		pre, n := CutReach(fn, nil, w.(ssa.Instruction), []ssa.Instruction{holderCall.(ssa.Instruction)}, nil)
+		cut := map[[2]*ssa.BasicBlock]bool{}
+		for _, e := range NilEdges(fn, FlowSet(holderCall.Value())) {
+			cut[e.Nil] = true
+		}
+		post, m := CutReach(fn, holderCall.(ssa.Instruction), w.(ssa.Instruction), nil, cut)
+		c.Decide(!pre && !post, rule, key(fn, fmt.Sprintf("versioned write<-ok(MostRecentWrite)[%d]", i+1)), w.Pos(), n+m, "writes happen only when the checking helper answered nil", "a write is reachable without (or against) the answer of the conflict-checking helper")
+	}
 }
